@@ -122,6 +122,9 @@ KINDS = ["connectReq", "connectEvt", "dConnected", "dClosed", "disconnectReq", "
 
 def cases(chk):
     r = chk.rng
+    for state in ("connecting", "connected"):
+        for ops in (["disconnect"], ["disconnect", "send"], ["close"], ["connect-event", "disconnect"], ["send", "disconnect", "disconnect"], ["close", "disconnect"]):
+            yield "dispcontract", {"state": state, "ops": ops}
     for disp in ("socket", "asyncore"):
         yield "realdisp", {"dispatcher": disp, "errors": ["ack", "ack"], "reconnect": 1}
         if not chk.quick() or disp == "socket":
@@ -270,6 +273,8 @@ def _drain_detached(stack):
 
 
 def nontrivial(stream, case):
+    if stream == "dispcontract":
+        return (stream, repr(case))
     if stream == "realdisp":
         return (stream, repr(case))
     if stream == "reboot":
@@ -548,7 +553,94 @@ def run_realdisp(chk, case):
     return fails
 
 
+def run_dispcontract(chk, case):
+    """the dispatcher double of the history stream stands for the library's default (asyncore) dispatcher: the REAL dispatcher object, put in
+    the same state without a network (a socket that is still connecting / one half of a socket pair), must answer the same calls with the same
+    callbacks as the double — in particular a disconnect request while the connection is still being established closes it and says so."""
+    import socket
+    import yowsup.layers.network.dispatcher.dispatcher_asyncore as DA
+    from yowsup.layers.network.dispatcher.dispatcher import ConnectionCallbacks
+    fails = []
+
+    class CB(ConnectionCallbacks):
+        def __init__(self):
+            self.log = []
+
+        def onConnecting(self):
+            self.log.append("connecting")
+
+        def onConnected(self):
+            self.log.append("connected")
+
+        def onDisconnected(self):
+            self.log.append("disconnected")
+
+        def onConnectionError(self, e):
+            self.log.append("error")
+
+        def onRecvData(self, d):
+            self.log.append("data")
+    rcb, dcb = CB(), CB()
+    real = DA.AsyncoreConnectionDispatcher(rcb)
+    socks = []
+    n0 = len(FakeDispatcher.created)
+    saved_log = getattr(FakeDispatcher, "LOG", [])
+    FakeDispatcher.LOG = []
+    double = FakeDispatcher(dcb)
+    try:
+        double.open = True
+        if case["state"] == "connecting":
+            real.create_socket(socket.AF_INET, socket.SOCK_STREAM)
+            real.connecting = True
+        else:
+            a, b = socket.socketpair()
+            socks += [a, b]
+            a.setblocking(False)
+            real.set_socket(a)
+            real.connected = True
+            real.handle_connect()
+            double.handle_connect()
+        chk.hit("dispcontract:" + case["state"])
+        for i, op in enumerate(case["ops"]):
+            r0, d0 = len(rcb.log), len(dcb.log)
+            for obj in (real, double):
+                try:
+                    if op == "disconnect":
+                        obj.disconnect()
+                    elif op == "close":
+                        obj.handle_close()
+                    elif op == "connect-event":
+                        obj.handle_connect()
+                    elif op == "send":
+                        obj.sendData(b"x")
+                except Exception as e:
+                    (rcb if obj is real else dcb).log.append("raised:" + type(e).__name__)
+            rl, dl = rcb.log[r0:], dcb.log[d0:]
+            rstate = "up" if real._connected else "down"
+            dstate = "up" if double._connected else "down"
+            if rl != dl or rstate != dstate:
+                fails.append(oracle("C16:dispatcher-breaks-contract", "asyncore dispatcher %s, calls %s: call #%d (%s) answered with callbacks %s and is %s; the double the history stream "
+                                    "uses (and the model) answers %s and is %s — a %s" % (case["state"], case["ops"], i, op, rl, rstate, dl, dstate,
+                                                                                     "request the dispatcher ignores leaves the network layer waiting for ever" if not rl and dl else "difference the histories do not cover")))
+                break
+    finally:
+        del FakeDispatcher.created[n0:]
+        FakeDispatcher.LOG = saved_log
+        try:
+            real.close()
+        except Exception:
+            pass
+        for s_ in socks:
+            try:
+                s_.close()
+            except Exception:
+                pass
+    return fails
+
+
 def run_case(chk, stream, case):
+    if stream == "dispcontract":
+        return run_dispcontract(chk, case)
     if stream == "realdisp":
         return run_realdisp(chk, case)
     if stream == "reboot":
@@ -782,7 +874,7 @@ def check_trace(case, executed, trace):
 
 
 def shrink(stream, case):
-    if stream in ("reboot", "realdisp"):
+    if stream in ("reboot", "realdisp", "dispcontract"):
         return
     if stream == "relogin":
         for i in range(len(case["downs"])):
